@@ -53,7 +53,8 @@ TRANSFORM_VALUES = {'time': 'exp(-t)*Heaviside(t)', 'laplace': '1/(s+1)', 'fouri
                     'discrete time': '3**(-n)*u(n)', 'Z': '3*z/(3*z-1)', 'constant': '4', 'constant time': '4',
                     'constant frequency response': '4'}
 # transforms that integrate over the source variable and belong to the property's sentence
-PROPS = ['Lcapy/Props/C18.lean', 'Lcapy/Props/C18TP.lean', 'Lcapy/Props/C18Sup.lean', 'Lcapy/Props/C18Tr.lean']
+PROPS = ['Lcapy/Props/C18.lean', 'Lcapy/Props/C18TP.lean', 'Lcapy/Props/C18Sup.lean', 'Lcapy/Props/C18Tr.lean',
+         'Lcapy/Props/NonVacuityC18.lean']
 INTEGRAL = {('time', 'laplace'), ('laplace', 'time'), ('time', 'fourier'), ('fourier', 'time'),
             ('time', 'angular fourier'), ('angular fourier', 'time')}
 
@@ -249,8 +250,9 @@ def run(chk, replay=None):
         'operand = (domain in the 18 instantiable domains of exprclasses) x (quantity in undefined + 10 defined) x value kind '
         '(3*var | 3 | 0 | the domain-variable singletons t,s,f,omega,... carrying domain units); case = ordered operand pair x operator '
         'x (loose_units, check_units, canonical_units); quick: complete pairs for * and / (value kinds that the code distinguishes), complete '
-        'pairs for + and == at the default setting, seeded sample of pairs under the 7 other settings and for -; thorough: everything under '
-        'all 8 settings; ** for n in {2,-1,3} on every operand; every transform row of the translated table on every quantity; '
+        'pairs for + and == at the default setting, seeded sample of pairs under the 7 other settings and for -; thorough: + and == complete under '
+        'the 4 (loose_units, check_units) settings and a seeded quarter of the pairs under the 4 settings that differ in canonical_units only (read by the '
+        'printers only, flag theorem), - complete under the default and the strictest setting; ** for n in {2,-1,3} on every operand; every transform row of the translated table on every quantity; '
         'every domain change offered through the call syntax X(t), X(s), X(f), X(omega), X(jw), X(jf) and the named methods, one and two steps deep from a Laplace- and a time-domain start, for every quantity class (step rule + route independence); non-trivial = the real operator returned a result (not an error) or the spec demands a refusal; distinct by (operator, setting, operand descriptors); '
         'ROUND 3 -- typed results: (two-port object in {8 parameter-matrix classes reached by every conversion from seed matrices, every TwoPort network class '
         'buildable from a pool of constructor recipes (quick: 10 core + 4 seeded-random, thorough: all ~55), Circuit.twoport}) x (every attribute of the regenerated '
@@ -494,7 +496,7 @@ def run(chk, replay=None):
             for xk in add_a:
                 run_add(ak, xk, CONFIGS[0], ('+', '=='))
         allk = [k for k in operands] + list(singles)
-        for i in range(6000):
+        for i in range(4000):
             ak, xk = rng.choice(allk), rng.choice(allk)
             cfg = CONFIGS[1 + rng.randrange(7)] if i % 4 else CONFIGS[0]
             run_add(ak, xk, cfg, ('+', '-', '=='))
@@ -504,8 +506,13 @@ def run(chk, replay=None):
             # `-` takes the same path as `+` (__compat_add__): complete under the default and the strictest setting,
             # sampled under the six others (round 3: makes room for the typed-result streams within the 20 min budget)
             ops3 = ('+', '-', '==') if cfg in (CONFIGS[0], (False, True, False)) else ('+', '==')
+            # canonical_units is read by the printing properties only (theorem flag_canonical_units_only_printing):
+            # complete enumeration under the four (loose_units, check_units) settings, a seeded quarter of the pairs under
+            # the four settings that differ in canonical_units only
             for ak in add_a:
                 for xk in add_a:
+                    if cfg[2] and rng.random() >= 0.25:
+                        continue
                     run_add(ak, xk, cfg, ops3)
         # zero / constant value kinds and singletons: complete at the default and the strictest setting, sampled elsewhere
         special = [k for k in allk if len(k) == 2 or k[2] in ('zero', 'const', 'par')]
